@@ -254,3 +254,86 @@ func planC02(tier string, seed uint64) *Plan {
 	p.Phases = []Phase{{Name: "provenance", Groups: randomPlan("c02", seed, swarmCfgs(seed, n), jobs, count, "auto")}}
 	return p
 }
+
+// ------------------------------------------------------------------------------------------
+// UI properties
+
+func init() {
+	plans["C08"] = planC08
+	plans["C16"] = planC16
+	plans["C20"] = planC20
+}
+
+func uiCfgs(seed uint64, n int, hooks [][]string) []JobCfg {
+	r := &rng{s: seed ^ 0xBEEF}
+	var out []JobCfg
+	for i := 0; i < n; i++ {
+		var hook []string
+		if hooks != nil {
+			hook = hooks[i%len(hooks)]
+		}
+		out = append(out, mkCfg([]int{1, 2, 5, 10}[r.intn(4)], []int{1, 2, 3, 5, 5, 7}[r.intn(6)], []int{1, 2, 4, 16, 128}[r.intn(5)], hook, stdFeeds))
+	}
+	return out
+}
+
+func planC08(tier string, seed uint64) *Plan {
+	p := &Plan{
+		Level: "exploration",
+		Rule: "seeded UI sessions in racing pacing over generated towns: the subcommand goroutine, one goroutine per key press (bursts of 1-4), the 25 ms resize poller with size changes, open/feed/link/surroundings loaders and hook completions interleave under the seeded scheduler (it chooses who is granted the UI mutex, when each network segment, dial and hook completion happens, and what runs while a frame is being written); 0-2 network faults per session. Oracles: frame sink entered only by the holder of a mutex and never by two goroutines; no panic; at the end no mutex waiter, no unprocessed key. Thorough tier adds a -race build in parallel-release mode. Non-trivial = a run with >=2 concurrently enabled events; distinct = distinct (world tape, event order) fingerprint.",
+	}
+	n, jobs, count := 16, 2, 40
+	if tier == "thorough" {
+		n, jobs, count = 32, 4, 600
+	}
+	p.Phases = []Phase{{Name: "racing-sessions", Groups: randomPlan("ui_race", seed, uiCfgs(seed, n, nil), jobs, count, "stub")}}
+	if tier == "thorough" {
+		groups := randomPlan("ui_race", seed+7, uiCfgs(seed+7, 16, nil), 2, 120, "stub")
+		for _, g := range groups {
+			for _, j := range g.Jobs {
+				j.Parallel = 3
+			}
+		}
+		p.Phases = append(p.Phases, Phase{Name: "race-detector", Race: true, Groups: groups, Limit: 30 * time.Minute})
+	}
+	return p
+}
+
+func planC16(tier string, seed uint64) *Plan {
+	p := &Plan{
+		Level: "exploration",
+		Rule: "seeded UI sessions in settled pacing with a resize after every action (heights 2..40 incl. many of 2-5 rows, widths 12..120) over generated towns with paged collections, plus racing sessions; every frame handed to the terminal is checked to have exactly as many lines as the terminal the UI had been told about. Non-trivial = every run; distinct = distinct (world tape, event order) fingerprint.",
+	}
+	n, jobs, count := 16, 2, 40
+	if tier == "thorough" {
+		n, jobs, count = 32, 4, 500
+	}
+	groups := randomPlan("ui_sizes", seed, uiCfgs(seed, n, nil), jobs, count, "stub")
+	groups = append(groups, randomPlan("ui_race", seed+3, uiCfgs(seed+3, n/2, nil), 1, count/2, "stub")...)
+	p.Phases = []Phase{{Name: "frames", Groups: groups}}
+	return p
+}
+
+var hookVariants = [][]string{
+	{"xdg-open", "%url"},
+	{"opener"},
+	{"sh", "-c", "exec viewer \"$0\" \"$1\"", "%url", "%mimetype"},
+	{"%url", "%url", "%supertype", "%subtype", "%mimetype"},
+	{"view", "--type=%mimetype", "%url", "x%urlx", "%URL", "%url "},
+	{"view", "%mimetype", "%supertype", "%subtype"},
+	{"view", "%url", "%url", "-"},
+	{"/usr/bin/env", "PATH=%url", "handler", "%subtype", "%url"},
+}
+
+func planC20(tier string, seed uint64) *Plan {
+	p := &Plan{
+		Level: "exploration",
+		Rule: "seeded settled UI sessions pressing o, p, b and number+Enter on posts, attachments and actors whose links and media types contain spaces, quotes, leading dashes, $(), backticks and placeholder look-alikes, under 8 hook configurations (placeholders in any position, repeated, embedded in longer arguments, absent, in argv[0]); each recorded spawn (argv, stdin) must equal the argument-wise substitution for one of the (link, media type) pairs the content offers; hook faults (non-zero exit with hostile output, not found, slow). Non-trivial = every run; distinct = distinct (world tape, event order) fingerprint.",
+	}
+	n, jobs, count := 16, 2, 40
+	if tier == "thorough" {
+		n, jobs, count = 32, 4, 500
+	}
+	p.Phases = []Phase{{Name: "hook-sessions", Groups: randomPlan("ui_hook", seed, uiCfgs(seed, n, hookVariants), jobs, count, "stub")}}
+	return p
+}
